@@ -125,7 +125,69 @@ func runFormat(c Case) *h.Result {
 	return res
 }
 
+var fmtPairP = h.Prop[Case]{Name: "format-pair-grid", Run: runCall}
+
+// gridDirectives: every directive once with a small set of prefix parameters and modifiers (blocks closed); the grid
+// runs every ordered pair of them on three argument lists, so that what one directive leaves behind (argument position,
+// column, pending case conversion, pad state) meets every other directive.
+func gridDirectives() (out []string) {
+	params := []string{"", "0", "2", "-1", "v", "#"}
+	mods := []string{"", ":", "@"}
+	dirs := []string{"a", "s", "d", "x", "r", "c", "f", "e", "g", "$", "%", "&", "~", "t", "*", "?", "p", "^", "i", "_", "w",
+		"(~a~)", "[a~;b~]", "[~a~;~a~:;c~]", "{~a~}", "{~a~^,~}", "<~a~;~a~>", "/car/"}
+	for _, d := range dirs {
+		for _, p := range params {
+			if p == "" || d == "%" || d == "&" || d == "~" || d == "(~a~)" {
+				// no parameter, or a directive whose parameter only repeats it
+				if p != "" && p != "2" {
+					continue
+				}
+			}
+			if strings.HasPrefix(d, "{") && (p == "" || p == "#" || p == "v") {
+				p = "3" // every iteration has a repetition limit (an iteration that consumes nothing repeats for ever by definition)
+			}
+			for _, m := range mods {
+				out = append(out, "~"+p+m+d)
+			}
+		}
+	}
+	return
+}
+
+func testFormatGrid(t *testing.T) {
+	h.RunProp(t, fmtPairP, 0)
+	if !part("fgrid") || h.C.ReplayIn != "" {
+		return
+	}
+	ds := gridDirectives()
+	argLists := [][]string{{"fix0", "fix1", "fix2"}, {"i:-2", "list12", "str"}, {"nil"}, {"i:-1", "i:0", "list12"}}
+	slice := int(h.C.Seed % 4)
+	var units [][]Case
+	n := 0
+	for i, d1 := range ds {
+		if h.Thorough() && i%h.C.NShards != h.C.Shard {
+			continue
+		}
+		var cs []Case
+		for j, d2 := range ds {
+			if !h.Thorough() && (i+j)%4 != slice {
+				continue
+			}
+			for _, al := range argLists {
+				cs = append(cs, Case{Fn: "common-lisp:format", Mode: "q", Args: append([]string{"nil", "s:" + d1 + d2}, al...)})
+			}
+		}
+		n += len(cs)
+		units = append(units, cs)
+	}
+	h.Note("format-pair-grid: %d directive forms, ordered pairs x %d argument lists; %d calls in this run (quick: a quarter of the pairs chosen by the seed)", len(ds), len(argLists), n)
+	if drive(t, fmtPairP, units, workersFor()) && h.Thorough() {
+		h.SetExhaustive(fmtPairP.Name)
+	}
+}
+
 func testFormat(t *testing.T) {
+	testFormatGrid(t)
 	fmtP.Gen = genFormat
 	fmtP.Run = runFormat
 	if h.C.ReplayIn != "" {
